@@ -60,3 +60,28 @@ package testutil
 //@         && (forall k int :: { detachments[k] } 0 <= k && k < len(detachments) ==> !(detachments[k].Account == a && detachments[k].Pool == old(ec.attached[a][i])))
 //@         ==> linked(ec, a, old(ec.attached[a][i]))
 //@   ensures [no-error] result == nil
+//
+// DebitAccount: an error leaves every balance as it was; on success only the account itself and
+// the pools linked to it are touched, no balance grows, and the account's own balance is used
+// before any pool (it ends at max(0, own - cost)). Not shown: that the total drawn equals the cost
+// (a sum over the linked pools: no induction here) -- the bounded scenarios of C15 sample it.
+//@ extern (proto4.Usage).RenterCost pure
+//@ func (*EphemeralContractor).DebitAccount props C15
+//@   nopanic
+//@   requires ec != nil && ec.accounts != nil && ec.pools != nil && ec.attached != nil && linksDistinct(ec) && linksApart(ec)
+//@   requires [error-values] proto4.ErrNotEnoughFunds != nil
+//@   requires [separate-maps] !same(ec.accounts, ec.pools)
+//@   loop "range *" #1
+//@     invariant [untouched] snapshot(ec.accounts) == old(snapshot(ec.accounts)) && snapshot(ec.pools) == old(snapshot(ec.pools))
+//@   loop "range *" #2
+//@     invariant [others] forall a proto4.Account :: { ec.accounts[a] } a != account ==> ec.accounts[a] == old(ec.accounts[a]) && ((a in ec.accounts) <==> old(a in ec.accounts))
+//@     invariant [own] cval(ec.accounts[account]) == ite(cval(old(ec.accounts[account])) >= cval(usage.RenterCost()), cval(old(ec.accounts[account])) - cval(usage.RenterCost()), 0)
+//@     invariant [unlinked] forall p proto4.Account :: { ec.pools[p] } (forall i int :: { ec.attached[account][i] } 0 <= i && i < len(ec.attached[account]) ==> ec.attached[account][i] != p) ==> ec.pools[p] == old(ec.pools[p])
+//@     invariant [no-growth] forall p proto4.Account :: { ec.pools[p] } cval(ec.pools[p]) <= cval(old(ec.pools[p]))
+//@     invariant [links] snapshot(ec.attached) == old(snapshot(ec.attached))
+//@   ensures [error-no-effect] result != nil ==> snapshot(ec.accounts) == old(snapshot(ec.accounts)) && snapshot(ec.pools) == old(snapshot(ec.pools))
+//@   ensures [others] forall a proto4.Account :: { ec.accounts[a] } a != account ==> ec.accounts[a] == old(ec.accounts[a])
+//@   ensures [own-first] result == nil ==> cval(ec.accounts[account]) == ite(cval(old(ec.accounts[account])) >= cval(usage.RenterCost()), cval(old(ec.accounts[account])) - cval(usage.RenterCost()), 0)
+//@   ensures [unlinked] forall p proto4.Account :: { ec.pools[p] } (forall i int :: { ec.attached[account][i] } 0 <= i && i < len(ec.attached[account]) ==> ec.attached[account][i] != p) ==> ec.pools[p] == old(ec.pools[p])
+//@   ensures [no-growth] forall p proto4.Account :: { ec.pools[p] } cval(ec.pools[p]) <= cval(old(ec.pools[p]))
+//@   ensures [links] snapshot(ec.attached) == old(snapshot(ec.attached))
